@@ -70,3 +70,13 @@ func init() {
 		regionSpec{fn: "consensus.validateV2Siafunds", name: "inputMember", from: "if sfi.Parent.StateElement.LeafIndex == types.UnassignedLeafIndex", to: "if err := validateV2SpendPolicy"},
 	)
 }
+
+func init() {
+	// C02 — no parent is named twice by the inputs of one v2 transaction: the whole first loop of validateV2Siacoins /
+	// validateV2Siafunds (map writes included) as one definition
+	extFuncs[coreMod+"/consensus.State.InputSigHash"] = "InputSigHash"
+	regionRoots = append(regionRoots,
+		regionSpec{fn: "consensus.validateV2Siacoins", name: "inputs", from: "sigHash := ms.base.InputSigHash(txn)", to: "var inputSum, outputSum types.Currency"},
+		regionSpec{fn: "consensus.validateV2Siafunds", name: "inputs", from: "sigHash := ms.base.InputSigHash(txn)", to: "var inputSum, outputSum uint64"},
+	)
+}
